@@ -16,6 +16,11 @@ def main(argv=None):
     ap.add_argument("-v", "--verbose", action="store_true")
     ap.add_argument("--jobs", type=int, default=None)
     a = ap.parse_args(argv)
+    os.environ.setdefault("TQDM_DISABLE", "1")
+    import logging
+    logging.disable(logging.WARNING)       # the library logs expected warnings (corrupt metadata, defaults) while being exercised
+    import warnings
+    warnings.filterwarnings("ignore")
     seed = int(os.environ.get("VERIF_SEED", "0") or 0)
     tier = a.tier if a.tier in ("quick", "thorough") else "quick"
     sys.path.insert(0, VERIF)
